@@ -3,6 +3,16 @@
 import json, sys
 ALL = [f"C{i:02d}" for i in range(1, 21)]
 CLAIMED = {
+ "C05": dict(
+   technique="exhaustive enumeration (all 8-bit operand pairs) + boundary sets + proptest random operands against Rust's same-named primitives; boundary-value literal programs",
+   text="Exploration with an exhaustive core. Every operand pair of Int8 and UInt8 under all 8 binary roles and to_string (1.05 M invocations) is compared with Rust's primitive; wider types get boundary sets squared and random pairs, floats special values squared and random bit patterns (bit-exact, any NaN = any NaN, rendering must parse back to the same bits). Source-level literals within 2 of every range boundary at every type, defaulting and absence of implicit conversion are decided by accept/reject and the printed value.",
+   note="trusted base: hmodel.rs numeric functions (thin wrappers over Rust primitives); roles are invoked through the interpreter's Prim step",
+   ref="§3 C05"),
+ "C06": dict(
+   technique="model-based testing: direct role invocation and generated caller programs / I/O scenarios against a host-operation model (H-model) and a file model; mutation of a private copy of the Builtin signature",
+   text="Exploration. Table agreement for all 126 roles; the text/bytes/stdio/process roles are invoked on tuples generated from their declared classifier (Unicode, boundary indices, invalid UTF-8, surrogates, numeric edge strings) with a sentinel frame checking the consumed arity; generated caller programs and I/O scenarios run through the linked package and must print what the model predicts (error kinds through the error continuation, closed handles stay closed, file contents); one-role mutations of the Builtin signature must be rejected.",
+   note="trusted base: H-model (hmodel.rs), file model in props/c06.rs; runs as root so permission errors are not producible",
+   ref="§3 C06"),
  "C01": dict(
    technique="type-directed program generation + corpus token mutation (proptest choice tapes), filtered by the implementation's own accept verdict; stuck-state classification of fuel-bounded runs on adversarial inputs",
    text="Exploration. Generated core programs, every repository executable and its still-accepted token mutants are run with the interpreter on six stdin contents (empty, lines, numbers incl. out of range, a 70 kB line, invalid UTF-8, generated) and two argument vectors under a fuel bound; any way of ending other than exit / return / fuel / the division trap / a legacy-stdio host failure is a stuck state. Soundness beyond the generated core and the corpus neighbourhood is not established.",
